@@ -1,4 +1,4 @@
-\* variant: discover() compares size >= limit: no round above the limit
+\* as is (since /repo f5c221a discover() compares size >= limit): no round above the limit
 SPECIFICATION Spec
 CONSTANTS
   Peers = {"p1", "p2", "p3"}
